@@ -115,11 +115,13 @@ theorem do2_formula (h : S.Good G X) :
 theorem skel_not_identifiable (h : S.Good G X) : ¬ Identifiable G X S.Rl := by
   intro hid
   have heq := hid (S.spec1 G).scm (S.spec2 G).scm (PSpec.scm_compatible (spec1_good h))
-    (PSpec.scm_compatible (spec2_good h)) ⟨fun _ _ => rfl, obs_eq h⟩
+    (PSpec.scm_compatible (spec2_good h)) ⟨fun _ _ => rfl, fun σ _ => obs_eq h σ⟩
   obtain ⟨K, hK, hdo⟩ := do2_formula h
   obtain ⟨r, hr⟩ := List.exists_mem_of_ne_nil _ h.R_ne
-  have e0 := heq (fun _ => 0)
-  have e1 := heq (fun v => if r = v then 1 else 0)
+  have e0 := heq (fun _ => 0) (fun _ _ => by simp [PSpec.scm])
+  have e1 := heq (fun v => if r = v then 1 else 0) (fun v _ => by
+    show (if r = v then 1 else 0) < 2
+    split <;> omega)
   rw [do1_const h S.Rl _ (fun _ => 0), e0, hdo, hdo] at e1
   have s0 : (S.Rl.map fun _ : Name => 0).sum = 0 := by simp
   have s1 : (S.Rl.map fun v => if r = v then 1 else 0).sum = 1 := sum_map_ite_eq S.Rl h.R_nodup r hr 1
